@@ -37,10 +37,14 @@ MANIFEST = dict(
         "createCVSameSize for every permutation: validation(p) = the p-th piece of the shuffled sequence cut into floor(n/k)(+1), fold sizes differ by "
         "at most one, validation ++ training a permutation (createCVSameSize_validation_exact, _end_to_end); createCVSameSizeBalanced for every "
         "class-wise shuffle: per class and pair of folds the member counts in validation(p), validation(q) differ by at most one (classes smaller "
-        "than the fold count and absent classes included), fold sizes floor(n/k)(+1) (createCVSameSizeBalanced_end_to_end), and every outcome of the "
+        "than the fold count and absent classes included), fold sizes floor(n/k)(+1) (createCVSameSizeBalanced_end_to_end), validation(p) = the "
+        "elements at first[j] with second[j] = p, i.e. the recreation indices describe the folds (createCVSameSizeBalanced_folds), for the "
+        "membership-vector overload (regression labels) every class is dealt in one window of dealing positions, so its members are spread over "
+        "any two folds with counts differing by at most one (balancedMembers_class_balance), and every outcome of the "
         "class-wise shuffles is a class-sorted permutation (balanced_dealing_order_class_sorted: a consequence of the loop structure, not an "
         "assumption); createCVBatch for every shuffle: dataset untouched, validation(i) = the dealt batches, training(i) = the others "
-        "(createCVBatch_end_to_end); nested cross-validation: folds of a training part partition that part and, with the outer validation part, "
+        "(createCVBatch_end_to_end), folds own floor(nb/k)(+1) batches (createCVBatch_fold_batch_counts); createCVSameSize keeps the shapes "
+        "(createCVSameSize_shape_kept); nested cross-validation: folds of a training part partition that part and, with the outer validation part, "
         "the outer dataset (nested_createCVIndexed); (6) the constructions and accessors are defined (no undefined behaviour) for every admissible "
         "input incl. folds == 1, folds == n, n < batch size, empty folds, more folds than batches (regroup_total, createCVIndexed_total, "
         "createCVFullyIndexed_total, createCVSameSize_total, createCVSameSizeBalanced_total, createCVSameSizeBalancedMembers_total, createCVBatch_total). The model is tied to the real code by an exact correspondence on histories: one of the six "
@@ -48,7 +52,8 @@ MANIFEST = dict(
         "unsorted, overlapping or emptied index sets / the same on WeightedLabeledData / a second construction on the reorganised dataset / "
         "construction on training(i) or validation(i) = nested CV), RNG draws observed and checked against the model's relation, on unsigned / "
         "RealVector / CompressedRealVector / user-struct inputs x class labels / RealVector regression labels (balanced: detail:: overload with a "
-        "membership vector) under ASan/UBSan (thorough tier exhaustive over (n, k, batch size incl. 0) for n <= 30), plus an independent in-harness "
+        "membership vector; maximum batch size 256 goes through the default arguments, a few calls have 300-800 elements so that folds exceed the "
+        "default batch size) under ASan/UBSan (thorough tier exhaustive over (n, k, batch size incl. 0) for n <= 30), plus an independent in-harness "
         "oracle: training indices = complement, validation/training elements = the batches of the dataset they name, disjointness, cover, pairing, "
         "fold sizes, class balance, per-fold batch count / batch sizes (ceil, <= max, differ by <= 1), requested fold, recreation indices, shapes, "
         "repeated access, weights stay with their elements. A third harness binary built WITHOUT NDEBUG runs the corpus and a sample of the "
@@ -57,7 +62,7 @@ MANIFEST = dict(
        "SharedContainer::repartition / reorderElements inside createCVSameSize are the C03 models (their loops are proved in C03); sharing of batches between a CVFolds object and the dataset it was built from is not modelled "
        "(the harness makes subsets independent before repartitioning them, as the documentation demands); the RNG itself is not modelled (every "
        "theorem holds for all permutations / draws; observed draws are checked against the admissibility relation). createCVSameSizeBalanced: class "
-       "balance is proved for class labels; for the membership-vector overload (regression labels) the window form dealing_class_balance applies. "
+       "balance on the elements of the validation parts is proved for class labels; for the membership-vector overload it is stated on dealing positions. "
        "Open findings F-C12-1 (CVFolds<WeightedLabeledData>::training does not compile) and F-C12-2 (debug builds abort on an empty last fold; "
        "createCVIID hits it by chance) are reported as KNOWN-FINDING (findings_proposed/C12.md, patches C12-F-C12-1.patch, C12-F-C12-2.patch).",
   technique="Lean 4 proofs (loop invariants, refinement of a statement-level model to its specification) over the regenerated batch arithmetic + differential correspondence on histories with observed RNG draws (ASan/UBSan)",
@@ -117,8 +122,11 @@ def gen_ctor(ctx, r):
     n = r.choice([1, 2, 3, 4, 5, 6, 7, 9, 10, 12, 16, 17, 24, 25, r.range(1, 60), r.range(1, 60)])
     k = r.choice([1, 2, 3, min(n, 5), n, r.range(1, n), r.range(1, n)])
     k = max(1, min(k, n))
-    bs = r.choice([0, 1, 1, 2, 3, 4, n, n + 1, r.range(1, n + 2), r.range(1, n + 2)])
+    bs = r.choice([0, 1, 1, 2, 3, 4, n, n + 1, r.range(1, n + 2), r.range(1, n + 2), 256])   # 256: the harness uses the default argument
     m0 = r.choice([0, 1, 2, 3, n, r.range(1, n + 1)])
+    if r.below(60) == 0:                                    # folds larger than the default batch size of 256
+        n = r.range(300, 800); k = r.choice([1, 2, 2, 3]); bs = r.choice([256, 256, 100, 0]); m0 = r.choice([0, 64, n])
+        ctx.count("large_n_folds_beyond_default_batch_size")
     labels = labels_for(ctx, r, n, k)
     fn = r.choice(["indexed", "indexed", "fully", "iid", "samesize", "samesize", "balanced", "balanced", "batch"])
     seed = r.below(1000000)
@@ -126,7 +134,7 @@ def gen_ctor(ctx, r):
     ctx.hist("function", fn); ctx.hist("n", min(n // 10 * 10, 60)); ctx.hist("folds", min(k, 10))
     ctx.hist("folds_class", "1" if k == 1 else ("n" if k == n else "between"))
     ctx.hist("n_mod_k", "divides" if n % k == 0 else "remainder")
-    ctx.hist("batch_size_rel", "0=unlimited" if bs == 0 else "1" if bs == 1 else ("<fold" if bs < max(1, n // k) else "<n" if bs < n else ">=n"))
+    ctx.hist("batch_size_rel", "0=unlimited" if bs == 0 else "256=default-argument" if bs == 256 else "1" if bs == 1 else ("<fold" if bs < max(1, n // k) else "<n" if bs < n else ">=n"))
     ctx.hist("initial_batching", "default" if m0 == 0 else "1" if m0 == 1 else "<n" if m0 < n else ">=n")
     if bs and n // k > bs and (n // k) % ((n // k + bs - 1) // bs): ctx.count("fold_of_several_unequal_batches")
     same = [n // k + (1 if i < n % k else 0) for i in range(k)]
